@@ -13,6 +13,7 @@ CONSTANTS
 INVARIANT WF
 INVARIANT PairAxioms
 INVARIANT DefinedSymmetric
+INVARIANT MagnitudeOk
 INVARIANT FirstCallExact
 INVARIANT RedrawInv
 INVARIANT TripleInv
